@@ -474,12 +474,12 @@ def run(env):
     run_enumeration(env, gen_exhaustive(env.quick(), env.seed, sizes=(1, 2, 3)), "enum-n<=3")
     run_enumeration(env, gen_resolver_serialized(), "resolver-serialized")
     # 2. random variants (presence, aliases, Field-object targets) and n = 5
-    for j, prog in enumerate(gen_variants(env.rng, env.n(1600, 40000))):
+    for j, prog in enumerate(gen_variants(env.rng, env.n(1600, 16000))):
         if over_budget(env):
             env.notes.append("budget guard reached during the random part")
             break
         check_program(env, prog, True, label=f"variant#{env.shard}.{j}")
-    for j, prog in enumerate(gen_variants(env.rng, env.n(1600, 40000), sizes=(5,))):
+    for j, prog in enumerate(gen_variants(env.rng, env.n(1600, 16000), sizes=(5,))):
         if over_budget(env):
             env.notes.append("budget guard reached during the n=5 part")
             break
